@@ -610,14 +610,14 @@ UNIVERSE_REG = [
 ]
 
 
-def reg_cmds(regs):
+def reg_cmds(regs, nohook=()):
     out = []
     for parent, name, kind, params in regs:
         path = "/".join(hx(p) for p in parent) or "."
         if parent:
             out.append("reg_obj " + path)
         if kind == "s":
-            out.append("reg_str %s %s %d %s" % (path, hx(name), params[0], hx(params[1])))
+            out.append("reg_str %s %s %d %s%s" % (path, hx(name), params[0], hx(params[1]), " nohook" if (tuple(parent), name) in nohook else ""))
         elif kind == "l":
             out.append("reg_list %s %s %d %s" % (path, hx(name), len(params[0]), " ".join(hx(x) for x in params[0])))
         elif kind == "a":
@@ -696,7 +696,7 @@ def c14_s(draw, pid, tier, opts=None):
     nreg = draw(st.integers(0, len(UNIVERSE_REG)))
     regs = draw(st.permutations(list(range(len(UNIVERSE_REG)))))[:nreg]
     prior = []
-    for _ in range(draw(st.integers(0, 2))):
+    for _ in range(draw(st.integers(0, 3))):
         if draw(st.booleans()):
             prior.append(draw(st.sampled_from(corp)))
         else:
@@ -728,12 +728,13 @@ def c14_s(draw, pid, tier, opts=None):
     else:
         cand = base
         how = "valid"
-    return {"regs": list(regs), "prior": prior, "cand": cand, "how": how}
+    nohook = [i for i in regs if UNIVERSE_REG[i][2] == "s" and draw(st.integers(0, 3)) == 0]     # string settings whose consumer installed no change hook
+    return {"regs": list(regs), "prior": prior, "cand": cand, "how": how, "nohook": nohook}
 
 
 def eval_c14(case, ctx):
     res = CaseResult()
-    cmds = reg_cmds([UNIVERSE_REG[i] for i in case["regs"]])
+    cmds = reg_cmds([UNIVERSE_REG[i] for i in case["regs"]], nohook={(tuple(UNIVERSE_REG[i][0]), UNIVERSE_REG[i][1]) for i in case.get("nohook", [])})
     for i, p in enumerate(case["prior"]):
         cmds.append("load " + write(ctx, "prior%d.conf" % i, p))
     nb = len(cmds)
